@@ -108,11 +108,7 @@ def check(run, replay=None):
     run.rule = ("overlap check: all tuples of <=3 (quick) / <=4 (thorough) sorted duplicate-free lists of length <=3 over a "
                 "4-string alphabet (exhaustive) plus random tuples of 0..8 lists, sorted, sorted-with-duplicates and unsorted, "
                 "run on the real sylvia::utils::assert_no_intersection and on the Coq model; non-trivial = at least two lists, distinct tuple")
-    try:
-        text, info, *_ = translate.generate()
-        translate.write_gentables(text)
-    except translate.TranslateError as e:
-        run.translator_error(str(e))
+    translate.regen_tables(run)
     from . import libcommon
     untranslated = [e for e in libcommon.regen_imp(run) if "utils.rs" in e]
     run.hygiene()
